@@ -65,7 +65,7 @@ theorem handleReq_questions (env : Env) (q : Question) :
               · rename_i rq hq
                 simp only [Bool.and_eq_true, beq_iff_eq] at hresp
                 refine ⟨rq, ?_, hresp.1.1.1, hresp.1.1.2, hresp.2⟩
-                simp [removeEDNS0, hq]
+                simp [stripOpt, hq]
               · simp at hresp
             · left; rfl
           · left; rfl
